@@ -12,17 +12,24 @@ package transports
 //                what a station trying several private keys on the bytes it read does) must yield the tag every time the right
 //                key is used, TryReveal must leave the caller's buffer byte-for-byte unchanged whatever the key, and a result
 //                returned earlier must not change under a later reveal
+//   scripted     (own stage / process, single-threaded) crypto/rand.Reader is replaced by a reader serving chosen streams: runs of
+//                k = 0,1,2,5,15,16,17,40,200 keys WITHOUT an Elligator representative (found by search) followed by representable
+//                ones, constant all-zero / all-0xFF streams, streams that end in an error at chosen points, reads delivered in
+//                short pieces.  Whatever the randomness: Obfuscate returns an error, or something TryReveal opens to the tag.
 //   anypb        for every transport params message type × generated values × {type URL kept, stripped, legacy "tapdance."
 //                URL} × {object handed over directly, carried inside a marshalled ClientToStation}: UnmarshalAnypbTo yields a
 //                message proto.Equal to the original; a non-empty URL of another type must be refused
 
 import (
 	"bytes"
+	"crypto/rand"
+	"errors"
 	"fmt"
 	mrand "math/rand"
 	"runtime/debug"
 	"strings"
 	"testing"
+	"time"
 
 	kit "github.com/refraction-networking/conjure/internal/verifkit"
 	pb "github.com/refraction-networking/conjure/proto"
@@ -512,4 +519,215 @@ func TestVerifC15Anypb(t *testing.T) {
 func c15Val(m proto.Message) string {
 	b, _ := proto.MarshalOptions{Deterministic: true}.Marshal(m)
 	return kit.HexN(b, 48)
+}
+
+// ---- scripted randomness ------------------------------------------------------------------------------------------------------
+
+// c15Script is an io.Reader standing in for crypto/rand.Reader: it serves `head`, then `tail` repeated up to maxTail times,
+// then fails; at most `piece` bytes per Read (0 = as many as asked).
+type c15Script struct {
+	head    []byte
+	tail    []byte
+	maxTail int
+	piece   int
+	served  int
+	reads   int
+	tailN   int
+	tailOff int
+}
+
+var errC15ScriptEnd = errors.New("verif: scripted random source exhausted")
+
+func (r *c15Script) Read(p []byte) (int, error) {
+	r.reads++
+	if len(p) == 0 {
+		return 0, nil
+	}
+	n := len(p)
+	if r.piece > 0 && n > r.piece {
+		n = r.piece
+	}
+	for i := 0; i < n; i++ {
+		switch {
+		case r.served < len(r.head):
+			p[i] = r.head[r.served]
+		case len(r.tail) > 0 && r.tailN < r.maxTail:
+			p[i] = r.tail[r.tailOff]
+			r.tailOff++
+			if r.tailOff == len(r.tail) {
+				r.tailOff = 0
+				r.tailN++
+			}
+		default:
+			if i == 0 {
+				return 0, errC15ScriptEnd
+			}
+			return i, nil
+		}
+		r.served++
+	}
+	return n, nil
+}
+
+// c15FindKeys sorts seeded 32-byte strings by whether, used as a private key, they have an Elligator representative.
+func c15FindKeys(rng *mrand.Rand, nUnlucky, nLucky int) (unlucky, lucky [][]byte) {
+	for len(unlucky) < nUnlucky || len(lucky) < nLucky {
+		var priv, pub, repr [32]byte
+		rng.Read(priv[:])
+		if extra25519.ScalarBaseMult(&pub, &repr, &priv) {
+			if len(lucky) < nLucky {
+				lucky = append(lucky, append([]byte(nil), priv[:]...))
+			}
+		} else if len(unlucky) < nUnlucky {
+			unlucky = append(unlucky, append([]byte(nil), priv[:]...))
+		}
+	}
+	return
+}
+
+func TestVerifC15ScriptedRandomness(t *testing.T) {
+	rec := kit.NewRec("C15", "scripted")
+	defer rec.Close()
+	rng := kit.Rand("c15scripted")
+	realReader := rand.Reader
+	defer func() { rand.Reader = realReader }()
+
+	unlucky, lucky := c15FindKeys(rng, 260, 8)
+	var zeroKey, ffKey [32]byte
+	for i := range ffKey {
+		ffKey[i] = 0xff
+	}
+	hasRepr := func(k [32]byte) bool {
+		var pub, repr [32]byte
+		return extra25519.ScalarBaseMult(&pub, &repr, &k)
+	}
+	rec.Note(fmt.Sprintf("all-zero key has a representative: %v; all-0xFF key has a representative: %v", hasRepr(zeroKey), hasRepr(ffKey)))
+
+	obfs := []c15Obf{{"gcm", GCMObfuscator{}, true, 0}, {"ctr", CTRObfuscator{}, true, 0}, {"xor", XORObfuscator{}, true, 16}, {"nil", NilObfuscator{}, false, 0}}
+	keys := c15KeyPairs(rng, 4)
+
+	type stream struct {
+		name string
+		mk   func() *c15Script
+	}
+	var streams []stream
+	filler := make([]byte, 4096) // what follows the scripted keys: seeded bytes (top-bit byte, XOR pads)
+	rng.Read(filler)
+	for _, k := range []int{0, 1, 2, 5, 15, 16, 17, 40, 200} {
+		for _, piece := range []int{0, 1, 7, 31} {
+			if piece != 0 && k != 0 && k != 16 && k != 17 {
+				continue
+			}
+			k, piece := k, piece
+			off := rng.Intn(len(unlucky) - k)
+			good := lucky[rng.Intn(len(lucky))]
+			streams = append(streams, stream{fmt.Sprintf("%d-keys-without-representative-then-a-representable-one piece=%d", k, piece), func() *c15Script {
+				var head []byte
+				for _, u := range unlucky[off : off+k] {
+					head = append(head, u...)
+				}
+				head = append(head, good...)
+				return &c15Script{head: head, tail: filler, maxTail: 4, piece: piece}
+			}})
+			// the same run, but the source fails right after the unlucky keys / after the good key (before the top-bit byte)
+			if piece == 0 {
+				streams = append(streams, stream{fmt.Sprintf("%d-keys-without-representative-then-source-fails", k), func() *c15Script {
+					var head []byte
+					for _, u := range unlucky[off : off+k] {
+						head = append(head, u...)
+					}
+					return &c15Script{head: head}
+				}})
+				streams = append(streams, stream{fmt.Sprintf("%d-keys-without-representative-then-a-representable-one-then-source-fails", k), func() *c15Script {
+					var head []byte
+					for _, u := range unlucky[off : off+k] {
+						head = append(head, u...)
+					}
+					return &c15Script{head: append(head, good...)}
+				}})
+			}
+		}
+	}
+	// constant streams (bounded: after 600 key-sized repetitions the source fails, so a draw loop that never finds a key ends in an error)
+	streams = append(streams,
+		stream{"all-zero-bytes (bounded to 600 keys, then the source fails)", func() *c15Script { return &c15Script{tail: zeroKey[:], maxTail: 600} }},
+		stream{"all-0xFF-bytes (bounded to 600 keys, then the source fails)", func() *c15Script { return &c15Script{tail: ffKey[:], maxTail: 600} }},
+		stream{"one-key-without-representative-repeated (bounded to 600, then the source fails)", func() *c15Script { return &c15Script{tail: unlucky[0], maxTail: 600} }},
+		stream{"source-fails-at-once", func() *c15Script { return &c15Script{} }},
+		stream{"source-fails-after-5-bytes", func() *c15Script { return &c15Script{head: filler[:5]} }},
+	)
+
+	for _, st := range streams {
+		for _, ob := range obfs {
+			for ti, taglen := range []int{0, 1, 16, 32, 100} {
+				kp := keys[(ti+len(st.name))%len(keys)]
+				tag := make([]byte, taglen)
+				rng.Read(tag)
+				desc := fmt.Sprintf("%s stream=[%s] key=%s taglen=%d", ob.name, st.name, kp.kind, taglen)
+				rec.Case(desc)
+				rec.Count("evaluations", 1)
+				src := st.mk()
+				type result struct {
+					enc    []byte
+					err    error
+					pk     bool
+					pv, ps string
+				}
+				ch := make(chan result, 1)
+				rand.Reader = src
+				go func() {
+					var r result
+					var v interface{}
+					r.pk, v, r.ps = c15Try(func() { r.enc, r.err = ob.o.Obfuscate(tag, kp.pub[:]) })
+					r.pv = fmt.Sprint(v)
+					ch <- r
+				}()
+				var r result
+				select {
+				case r = <-ch:
+				case <-time.After(60 * time.Second):
+					// the stream is finite, so the code is looping without drawing; leave the goroutine behind and stop
+					rec.Inconclusive("Obfuscate did not return within 60 s on a finite scripted random stream", map[string]interface{}{"case": desc, "reads": "unknown (still running)"})
+					return
+				}
+				rand.Reader = realReader
+				d := map[string]interface{}{"case": desc, "random_bytes_drawn": src.served, "reads": src.reads}
+				switch {
+				case r.pk:
+					rec.Violation("obfs:"+ob.name+":scripted-randomness:obfuscate-panic", "Obfuscate panicked under a scripted random source", map[string]interface{}{"case": desc, "panic": r.pv, "stack": r.ps})
+					continue
+				case r.err != nil:
+					rec.Count("rejected", 1)
+					rec.Distinct("nontrivial", desc)
+					rec.Distinct("reject_reasons", fmt.Sprintf("%.50s", r.err.Error()))
+					continue
+				}
+				var dec []byte
+				var derr error
+				if pk, v, stk := c15Try(func() { dec, derr = ob.o.TryReveal(append([]byte(nil), r.enc...), kp.priv) }); pk {
+					rec.Violation("obfs:"+ob.name+":scripted-randomness:reveal-panic-on-own-encoding", "TryReveal panicked on what Obfuscate returned", map[string]interface{}{"case": desc, "panic": fmt.Sprint(v), "stack": stk})
+					continue
+				}
+				if taglen == 0 && ob.name == "xor" && derr != nil && len(r.enc) == 0 {
+					// (cannot happen on a tree where XOR refuses the empty tag; kept so that the old finding keeps its own signature)
+					rec.Violation("obfs:xor:reveal-rejects-own-encoding:empty-tag", "Obfuscate accepted the tag (no error) but TryReveal refuses the result with the matching private key", d)
+					continue
+				}
+				if derr != nil || !bytes.Equal(dec, tag) {
+					d["encoded"] = kit.HexN(r.enc, 48)
+					d["reveal_error"] = fmt.Sprint(derr)
+					d["first_32_bytes_all_zero"] = len(r.enc) >= 32 && bytes.Equal(r.enc[:32], make([]byte, 32))
+					rec.Violation("obfs:"+ob.name+":scripted-randomness:nil-error-but-unrevealable",
+						"under a scripted random source Obfuscate returned an encoding without an error that TryReveal with the matching key does not open to the tag", d)
+					continue
+				}
+				rec.Count("accepted_roundtrips", 1)
+				rec.Distinct("nontrivial", desc)
+				rec.Distinct("streams_with_accepted_roundtrip", st.name)
+				if rec.WantSample() && strings.HasPrefix(st.name, "17-keys") && taglen == 32 && (ob.name == "gcm" || ob.name == "ctr") {
+					rec.Sample(d)
+				}
+			}
+		}
+	}
 }
